@@ -387,7 +387,7 @@ func findParserWriter(c *Ctx) *parserWriter {
 					if outer, ok := h.Expr.(*eCall); ok && len(outer.Args) == 1 {
 						if inner, ok := outer.Args[0].(*eCall); ok {
 							if id, ok := inner.Fun.(*eIdent); ok && use != nil {
-								if fl, ok := ast.Unparen(use.Binds[id.Name]).(*ast.FuncLit); ok {
+								if fl := funcLitOf(c.Prog, info, use.Binds[id.Name]); fl != nil {
 									w.closures[vs.Names[0].Name] = fl
 									w.bindNames[vs.Names[0].Name] = id.Name
 									w.fd = use.Func
@@ -528,13 +528,15 @@ func indexUses(info *types.Info, root ast.Node, tbl types.Object) []indexUse {
 }
 
 // rowHeaderPattern recognises, in function body fd, the shared row-lookup prologue
-//   i := int(T[int(Y)]); count := int(T[i]); i++; end := i + count
+//
+//	i := int(T[int(Y)]); count := int(T[i]); i++; end := i + count
+//
 // and returns the names (i, count, end) and the table object.
 type rowPrologue struct {
-	tbl             types.Object
-	idx, cnt, end   string
-	tblName, yExpr  string
-	pos             token.Pos
+	tbl            types.Object
+	idx, cnt, end  string
+	tblName, yExpr string
+	pos            token.Pos
 }
 
 func findRowPrologue(info *types.Info, body *ast.BlockStmt) *rowPrologue {
@@ -657,6 +659,55 @@ func ruleFMT1(c *Ctx) {
 			c.bad(rule, "codegen.EmitLexer/action-arm("+name+")", p.Pos(arm.call.Pos()), "arm for %s appends %d words, other arms %d", name, n, actionArity)
 		}
 	}
+	// every action of every state is written: the only condition on the way to the action
+	// emission is that the state has an action list at all (and, in an arm, which action it is)
+	{
+		wpar := parents(w.fn)
+		wdefs := localDefs(info, w.fn)
+		var extra []string
+		for _, f := range pathConds(info, wpar, w.actNode) {
+			// `X != nil` where X is the state's *mode.Actions
+			if l, op, r, ok := cmpFact(f.e, !f.neg); ok && op == token.NEQ {
+				okNil := false
+				for _, pr := range [][2]ast.Expr{{l, r}, {r, l}} {
+					if exprString(pr[1]) == "nil" {
+						if t := info.TypeOf(pr[0]); t != nil && typeIs(t, "lexergen/mode", "Actions") {
+							okNil = true
+						}
+					}
+				}
+				if okNil {
+					continue
+				}
+			}
+			extra = append(extra, exprString(f.e))
+		}
+		_ = wdefs
+		c.check(len(extra) == 0, rule, "codegen.EmitLexer/actions-of-every-state", p.Pos(w.actNode.Pos()),
+			"the action section is written for every state that has actions (the reader runs a state's actions whenever input was consumed, whatever the state's number)",
+			fmt.Sprintf("the action section is written only under %v: some states lose their actions in the table although the reader would run them", extra))
+		var extraT []string
+		for _, f := range pathConds(info, wpar, w.transCall) {
+			extraT = append(extraT, exprString(f.e))
+		}
+		c.check(len(extraT) == 0, rule, "codegen.EmitLexer/transitions-of-every-state", p.Pos(w.transCall.Pos()),
+			"every transition of every state is written", fmt.Sprintf("transitions are written only under %v", extraT))
+		// one row per state, stored under the state's ID
+		okRow := false
+		inspectNoLit(w.fn, func(n ast.Node) bool {
+			call, ok := n.(*ast.CallExpr)
+			if !ok || len(call.Args) != 2 {
+				return true
+			}
+			if fn := calleeFunc(info, call); fn != nil && fn.Name() == "AddRow" && isField(info, stripConv(info, call.Args[0]), "lexergen/dfa", "State", "ID") && usesObj(info, call.Args[1]) == w.rowObj {
+				if len(pathConds(info, wpar, call)) == 0 {
+					okRow = true
+				}
+			}
+			return true
+		})
+		c.check(okRow, rule, "codegen.EmitLexer/row-per-state", p.Pos(w.transLoop.Pos()), "every DFA state's row is added unconditionally under the state's own ID", "a state's row is not added unconditionally under State.ID")
+	}
 	// order: header, transitions, actions
 	c.check(w.transLoop.End() <= w.actNode.Pos(), rule, "codegen.EmitLexer/section-order", p.Pos(w.actNode.Pos()),
 		"transitions are appended before actions", "actions are appended before the transitions: the reader skips gotoN*3 words to find the actions")
@@ -719,6 +770,26 @@ func ruleFMT1(c *Ctx) {
 		if h.v == flagConstUse && h.off == 0 {
 			flagsVar, cursor = h.v, h.base
 		}
+	}
+	if flagsVar == "" {
+		// the flags word is tested where it is read: T[c+0] & K
+		ast.Inspect(r.fd.Body, func(n ast.Node) bool {
+			be, ok := n.(*ast.BinaryExpr)
+			if !ok || be.Op != token.AND {
+				return true
+			}
+			for _, pr := range [][2]ast.Expr{{be.X, be.Y}, {be.Y, be.X}} {
+				if _, isConst := usesObj(tinfo, pr[1]).(*types.Const); !isConst {
+					continue
+				}
+				if ix, ok := stripConv(tinfo, pr[0]).(*ast.IndexExpr); ok && usesObj(tinfo, ix.X) == r.modeVar {
+					if b, off, ok := addConst(tinfo, stripConv(tinfo, ix.Index)); ok && off == 0 {
+						flagsVar, cursor = exprString(ix), b
+					}
+				}
+			}
+			return true
+		})
 	}
 	for _, h := range hdr {
 		if h.base == cursor && h.off == 1 && cursor != "" {
@@ -1091,11 +1162,13 @@ func ruleFMT3(c *Ctx) {
 		return strings.Join(dedupe(effs), ",")
 	}
 	want := map[string]func(string) bool{
-		"ActionPushMode": func(e string) bool { return strings.Contains(e, "push") && !strings.Contains(e, "return _lexerAccept") && !strings.Contains(e, "pop") },
-		"ActionPopMode":  func(e string) bool { return strings.Contains(e, "pop") && !strings.Contains(e, "push") },
-		"ActionAccept":   func(e string) bool { return e == "return _lexerAccept" },
-		"ActionDiscard":  func(e string) bool { return e == "return _lexerDiscard" },
-		"ActionAccum":    func(e string) bool { return e == "return _lexerTryAgain" },
+		"ActionPushMode": func(e string) bool {
+			return strings.Contains(e, "push") && !strings.Contains(e, "return _lexerAccept") && !strings.Contains(e, "pop")
+		},
+		"ActionPopMode": func(e string) bool { return strings.Contains(e, "pop") && !strings.Contains(e, "push") },
+		"ActionAccept":  func(e string) bool { return e == "return _lexerAccept" },
+		"ActionDiscard": func(e string) bool { return e == "return _lexerDiscard" },
+		"ActionAccum":   func(e string) bool { return e == "return _lexerTryAgain" },
 	}
 	seenCodes := map[int64]bool{}
 	for name, val := range used {
@@ -1202,20 +1275,23 @@ func ruleFMT4(c *Ctx) {
 		return
 	}
 	var tested *types.Const
-	var testNode *ast.IfStmt
+	var testNode ast.Node
+	rdefs := localDefs(ti.Info, r.fd)
 	ast.Inspect(r.fd.Body, func(n ast.Node) bool {
-		ifs, ok := n.(*ast.IfStmt)
-		if !ok {
+		be, ok := n.(*ast.BinaryExpr)
+		if !ok || be.Op != token.AND {
 			return true
 		}
-		ast.Inspect(ifs.Cond, func(m ast.Node) bool {
-			if be, ok := m.(*ast.BinaryExpr); ok && be.Op == token.AND {
-				if k, ok := usesObj(ti.Info, be.Y).(*types.Const); ok {
-					tested, testNode = k, ifs
-				}
+		for _, pr := range [][2]ast.Expr{{be.X, be.Y}, {be.Y, be.X}} {
+			k, isK := usesObj(ti.Info, pr[1]).(*types.Const)
+			if !isK {
+				continue
 			}
-			return true
-		})
+			// the other operand is a word read from the mode table (the flags word)
+			if ix, isIx := stripConv(ti.Info, resolveVia(ti.Info, rdefs, pr[0])).(*ast.IndexExpr); isIx && usesObj(ti.Info, ix.X) == r.modeVar {
+				tested, testNode = k, be
+			}
+		}
 		return true
 	})
 	if tested == nil || setVal == nil {
@@ -1308,7 +1384,10 @@ func ruleFMT5(c *Ctx) {
 			}
 		}
 	}
-	isF := func(e ast.Expr, f *types.Var) bool { fv, _ := selField(info, e); return fv != nil && (fv == f || fv.Origin() == f) }
+	isF := func(e ast.Expr, f *types.Var) bool {
+		fv, _ := selField(info, e)
+		return fv != nil && (fv == f || fv.Origin() == f)
+	}
 	if rowsF == nil || idxF == nil || keyF == nil || lastF == nil {
 		c.unres(rule, "codegen.table/fields", "", "the row store does not have the expected fields (rows slice, index map, key map, last index)")
 		return
